@@ -189,7 +189,9 @@ type Fate struct {
 	PlaceCalls []int
 }
 
-func (f *Fate) Retained() bool { return f.State == StActive || f.State == StBound || f.State == StMoved }
+func (f *Fate) Retained() bool {
+	return f.State == StActive || f.State == StBound || f.State == StMoved
+}
 
 type Fold struct {
 	Fates     map[string]*Fate
